@@ -334,6 +334,8 @@ pub fn join_scoped(scope: ScopeName, group: GroupName, actors: Vec<ActorCell>) {
 
     let mut stopped_relations = Vec::new();
     let (joined, listeners) = {
+        #[cfg(ractor_verif)]
+        crate::verif::point("pg.entry.pre", 0, 0);
         let mut entry = monitor.map.entry(key.clone()).or_default();
         let group_state = entry.value_mut();
         let mut processed = HashSet::with_capacity(actors.len());
@@ -424,6 +426,8 @@ pub fn leave_scoped(scope: ScopeName, group: GroupName, actors: Vec<ActorCell>) 
     };
     let monitor = get_monitor();
 
+    #[cfg(ractor_verif)]
+    crate::verif::point("pg.entry.pre", 0, 1);
     let result = if let Occupied(mut entry) = monitor.map.entry(key.clone()) {
         let group_state = entry.get_mut();
 
